@@ -104,7 +104,7 @@ func runC12(r *Run, rng *rand.Rand, thorough bool) {
 			d := bi(int64(1 + rng.Intn(1000)))
 			pf2 := append([]*big.Int{}, pf...)
 			pf2[2] = new(big.Int).Mod(new(big.Int).Mul(pf[2], new(big.Int).Exp(tt, d, ncap)), ncap) // A·t^d
-			pf2[8] = new(big.Int).Add(pf[8], d)                                                       // w1 + d
+			pf2[8] = new(big.Int).Add(pf[8], d)                                                     // w1 + d
 			args := append([]string{}, c.args...)
 			args[6] = eInts(pf2)
 			judge("shift", args, "A*t^d, w1+d")
@@ -114,7 +114,7 @@ func runC12(r *Run, rng *rand.Rand, thorough bool) {
 			d := bi(int64(1 + rng.Intn(1000)))
 			pf2 := append([]*big.Int{}, pf...)
 			pf2[4] = new(big.Int).Mod(new(big.Int).Mul(pf[4], new(big.Int).Exp(h2, d, nt)), nt) // w·h2^d
-			pf2[9] = new(big.Int).Add(pf[9], d)                                                   // t2 + d
+			pf2[9] = new(big.Int).Add(pf[9], d)                                                 // t2 + d
 			args := append([]string{}, c.args...)
 			args[8] = eInts(pf2)
 			judge("shift", args, "w*h2^d, t2+d")
